@@ -68,6 +68,14 @@ def general_gate(rng, tag):
     return gate.dagger() if rng.random() < 0.3 else gate
 
 
+def weight_gate(rng, tag=0, exact=True):
+    """A classical gate without any wire: a weight (any value, also negative)."""
+    _, g = lib()
+    vals = [0.5, 0.25, -0.5, 2, 0.75, -1, 1.5, -0.25]
+    v = rng.choice(vals) if exact else rng.choice([1 / 3, -0.3, 0.7])
+    return g.ClassicalGate("w%d" % tag, 0, 0, [v])
+
+
 def unitary(rng, exact=True):
     _, g = lib()
     k = rng.randrange(8)
@@ -116,6 +124,13 @@ def candidates(rng, cls, tag):
     qc, g = lib()
     out = []
     ket = g.Ket(*[rng.randrange(2) for _ in range(rng.choice([1, 1, 2]))])
+    if cls == "classical":                                   # bits and non-mixed classical gates
+        out += [g.Bits(*[rng.randrange(2) for _ in range(rng.choice([1, 1, 2]))]),
+                stochastic_gate(rng, tag), deterministic_gate(rng, tag), g.Copy(), g.Match(),
+                general_gate(rng, tag), qc.Swap(qc.bit, qc.bit)]
+        if rng.random() < 0.5:
+            out.append(weight_gate(rng, tag, exact=rng.random() < 0.85))
+        return out
     if cls == "pure":
         out += [ket, unitary(rng), unitary(rng), unitary(rng), unitary(rng)]
         if rng.random() < 0.15:
@@ -147,6 +162,8 @@ def candidates(rng, cls, tag):
         out.append(g.Bits(*[rng.randrange(2) for _ in range(rng.choice([1, 2]))]).dagger())
     if rng.random() < 0.3:
         out.append(channel(rng))
+    if rng.random() < 0.35:
+        out.append(weight_gate(rng, tag, exact=rng.random() < 0.85))
     return out
 
 
@@ -154,7 +171,7 @@ def gen_circuit(rng, cls, max_w, depth, dom=None):
     qc, _ = lib()
     if dom is None:
         k = rng.choice([0, 0, 1, 1, 2]) if max_w > 1 else rng.choice([0, 1])
-        dom = some_type(rng, k, "q" if cls == "pure" else "bq")
+        dom = some_type(rng, k, {"pure": "q", "classical": "b"}.get(cls, "bq"))
     c = qc.Id(dom)
     for step in range(depth):
         for _ in range(6):
@@ -194,6 +211,8 @@ def box_tag(box):
                 extra = "(mixed)" if box.is_mixed else "(pure)"
             if cls in (g.ClassicalGate, g.QuantumGate, g.Bits) and box.is_dagger:
                 extra = ".dagger"
+            if cls is g.ClassicalGate and not len(box.dom) and not len(box.cod):
+                extra += "(weight)"
             return cls.__name__ + extra
     return "Channel"
 
@@ -278,6 +297,20 @@ def distribution_of(m, measure_qubits=False):
         lab = list(range(ncc)) + list(range(ncc, ncc + ncq)) * 2
         arr = np.einsum(arr, lab, list(range(ncc + ncq if measure_qubits else ncc)))
     return arr
+
+
+def expect_mixed(c):
+    """The documented meaning of Circuit.is_mixed, recomputed from the public fields: bits and
+    qubits both present in the domain or in the codomain of some layer, or a mixed box."""
+    qc, _ = lib()
+
+    def both(ty):
+        return qc.bit.objects[0] in ty.objects and qc.qubit.objects[0] in ty.objects
+    scan, types = c.dom, [c.dom]
+    for box, off in zip(c.boxes, c.offsets):
+        scan = scan[:off] @ box.cod @ scan[off + len(box.dom):]
+        types.append(scan)
+    return any(both(t) for t in types) or any(bool(b.is_mixed) for b in c.boxes)
 
 
 def tp_class(c):
@@ -414,16 +447,45 @@ def check_circuit(rep, drv, c, cls, model_budget, rng):
                          np.round(expect.reshape(-1), 6).tolist()[:32]))
     except NotImplementedError:
         rep.count("sem_skipped")
-    # --- clause (a): pure circuits
+    # --- which evaluation eval() chooses (circuit.py:163-173, 251-253): a circuit in which bits
+    #     and qubits sit side by side somewhere (domain or the codomain of any layer, the last one
+    #     included) or that has a mixed box is mixed, and eval() must then be the CQ map
     mixed_circuit = bool(c.is_mixed)
+    should_be_mixed = expect_mixed(c)
+    rep.count("is_mixed:%s" % should_be_mixed)
+    if mixed_circuit != should_be_mixed:
+        rep.fail("is_mixed_wrong", case, "is_mixed = %s, but %s" % (
+            mixed_circuit, "bits and qubits meet / a box is mixed" if should_be_mixed
+            else "no layer has both bits and qubits and no box is mixed"))
+    if should_be_mixed and not mixed_circuit:
+        plain, why = guarded(rep, c, "eval()", lambda: c.eval())
+        from discopy.quantum.cqmap import CQMap
+        if why is None and not (isinstance(plain, CQMap) and close(plain.array, m.array)):
+            rep.fail("auto_eval_of_mixed_circuit_is_not_the_cq_map", case,
+                     "eval() returns a %s with array %s; eval(mixed=True) gives %s" % (
+                         type(plain).__name__,
+                         np.round(np.asarray(plain.array).reshape(-1), 6).tolist()[:16],
+                         np.round(np.asarray(m.array).reshape(-1), 6).tolist()[:16]))
+    # --- clause (a): pure circuits
     pure = (not mixed_circuit) and not any(cqsem.is_bit(x) for x in (c.dom @ c.cod).objects) \
-        and not any(getattr(b, "classical", False) for b in c.boxes)
+        and not any(cqsem.is_classical_gate(b) for b in c.boxes)
     auto = m
     if not mixed_circuit:
         auto, why = guarded(rep, c, "eval()", lambda: c.eval())
         if why is not None:
             rep.fail("eval_raises:" + err_class(why), case, "eval(): " + repr(why))
             return
+    if not mixed_circuit and not should_be_mixed and c.boxes \
+            and all(cqsem.is_classical_gate(b) or isinstance(b, qc.Swap) for b in c.boxes) \
+            and all(cqsem.is_bit(x) for b in c.boxes for x in (b.dom @ b.cod).objects) \
+            and all(cqsem.is_bit(x) for x in c.dom.objects):
+        # a circuit of classical gates only: nothing is doubled, the CQ map is the plain tensor
+        rep.count("clause_classical_plain_checked")
+        if not close(m.array, auto.array):
+            rep.fail("classical_mixed_differs_from_plain", case,
+                     "eval(mixed=True) = %s but eval() = %s" % (
+                         np.round(np.asarray(m.array).reshape(-1), 6).tolist()[:16],
+                         np.round(np.asarray(auto.array).reshape(-1), 6).tolist()[:16]))
     if pure:
         rep.count("clause_a_checked")
         if not close(m.array, doubled_of_pure(auto)):
@@ -550,6 +612,86 @@ def variant_circuits(rng):
 def stochastic_gate_11(rng):
     _, g = lib()
     return g.ClassicalGate("st0", 1, 1, dyadic_row(rng, 2) + dyadic_row(rng, 2))
+
+
+def late_mix_circuits(rng, n):
+    """Circuits without any mixed box in which bits and qubits meet in ONE place only: on the
+    codomain of the last layer, or on the domain."""
+    qc, g = lib()
+    out = []
+    for k in range(n):
+        kind = k % 4
+        if kind in (0, 1):
+            # pure part on qubits, then a classical state tensored in by the very last layer
+            base_cls, last = "pure", rng.choice([
+                g.Bits(rng.randrange(2)), g.Bits(rng.randrange(2), rng.randrange(2)),
+                g.ClassicalGate("coin", 0, 1, dyadic_row(rng, 2))])
+            if kind == 1:
+                base_cls, last = "classical", g.Ket(*[rng.randrange(2)
+                                                      for _ in range(rng.choice([1, 2]))])
+            while True:
+                c = gen_circuit(rng, base_cls, rng.choice([1, 2, 2]), rng.randint(1, 5),
+                                dom=qc.Ty() if rng.random() < 0.6 else None)
+                if len(c.cod) and len(c.boxes):
+                    break
+            off = rng.randrange(len(c.cod) + 1)
+            out.append(c >> qc.Id(c.cod[:off]) @ last @ qc.Id(c.cod[off:]))
+        elif kind == 2:
+            # the shortest ones: a ket next to bits, one tensor
+            ket = g.Ket(*[rng.randrange(2) for _ in range(rng.choice([1, 2]))])
+            bits = g.Bits(*[rng.randrange(2) for _ in range(rng.choice([1, 2]))])
+            if rng.random() < 0.5:
+                ket = ket >> rng.choice([g.H, g.X, g.Rx(0.25)]) @ qc.Id(len(ket.cod) - 1)
+            out.append(ket @ bits if rng.random() < 0.5 else bits @ ket)
+        else:
+            # bits and qubits side by side on the domain only: the first box removes the qubit
+            nb = rng.choice([1, 2])
+            pos = rng.randrange(nb + 1)
+            dom = qc.bit ** pos @ qc.qubit @ qc.bit ** (nb - pos)
+            c = qc.Id(dom) >> qc.Id(qc.bit ** pos) @ g.Bra(rng.randrange(2)) @ qc.Id(qc.bit ** (nb - pos))
+            tail = gen_circuit(rng, "classical", 3, rng.randint(0, 3), dom=c.cod)
+            out.append(c >> tail)
+    return out
+
+
+def weight_stream(rep, drv, rng, n, budget):
+    """Weighting by a classical gate without wires is linear: eval(mixed=True) of the weighted
+    circuit is the weight times that of the circuit — wherever the weight box is placed."""
+    qc, g = lib()
+    for k in range(n):
+        cls = ["tp", "general", "classical", "tp"][k % 4]
+        while True:
+            c = gen_circuit(rng, cls, rng.choice([1, 2, 2, 3]), rng.randint(1, 5))
+            if c.boxes and not any(bad_encode(b) for b in c.boxes):
+                break
+        w = weight_gate(rng, 9, exact=rng.random() < 0.85)
+        value = complex(np.asarray(w.array).reshape(-1)[0])
+        where = rng.randrange(3)
+        if where == 0:
+            wc = w @ c
+        elif where == 1:
+            wc = c @ w
+        else:
+            j = rng.randrange(len(c.boxes) + 1)
+            mid = c[:j].cod
+            off = rng.randrange(len(mid) + 1)
+            wc = c[:j] >> qc.Id(mid[:off]) @ w @ qc.Id(mid[off:]) >> c[j:]
+        case = dict(describe(wc), weight=value)
+        rep.count("weight_cases")
+        m, why = guarded(rep, c, "eval(mixed=True)", lambda: c.eval(mixed=True))
+        mw, why2 = guarded(rep, wc, "eval(mixed=True)", lambda: wc.eval(mixed=True))
+        if why is None and why2 is None:
+            if not close(mw.array, value * np.asarray(m.array, dtype=complex)):
+                rep.fail("classical_weight_not_linear", case,
+                         "eval(mixed=True) of the weighted circuit = %s, %r times the circuit's = %s" % (
+                             np.round(np.asarray(mw.array).reshape(-1), 6).tolist()[:16], value,
+                             np.round(value * np.asarray(m.array).reshape(-1), 6).tolist()[:16]))
+        else:
+            for x in (why, why2):
+                if x not in (None, "f3"):
+                    rep.fail("eval_raises:" + err_class(x), case, repr(x))
+            continue
+        check_circuit(rep, drv, wc, "weighted", budget, rng)
 
 
 # ------------------------------------------------------------------ clause (b): Born rule, marginals, adjoints
@@ -857,7 +999,10 @@ def run(tier, seed, replay=None):
         "deterministic classical gates, Copy, swaps of bits and qubits) and general (+ MixedState, "
         "Encode variants, Match, daggered Bits/gates, arbitrary classical gates, pure and mixed "
         "scalars, user channels) and variants (each of the 16 Measure/Encode variants with n = 1, 2 "
-        "behind random preparations next to a spectator wire); plus a Born-rule stream (random pure states of 1-3 qubits, every "
+        "behind random preparations next to a spectator wire), latemix (no mixed box; bits and qubits "
+        "meet only on the codomain of the last layer or only on the domain), classical (bits and "
+        "non-mixed classical gates incl. wire-less weights with values outside {0, 1}) and weighted "
+        "(a weight box placed anywhere in a circuit: linearity); plus a Born-rule stream (random pure states of 1-3 qubits, every "
         "Measure variant, partial discards, all Encode/MixedState adjoints) and a CQMap expression "
         "stream (then/tensor/dagger/swap/measure/encode/discard/pure/classical/literals over "
         "dimensions 2 and 3, ~10% ill-typed compositions); non-trivial = circuit of >= 2 boxes of "
@@ -888,9 +1033,10 @@ def run(tier, seed, replay=None):
     ]
     rep.lean = lean_obligations(PROP, thorough=(tier == "thorough"))
     quick = tier == "quick"
-    n_circuits = dict(general=24, tp=20, pure=14) if quick else dict(general=380, tp=300, pure=180)
-    n_born = 5 if quick else 70
+    n_circuits = dict(general=20, tp=16, pure=11) if quick else dict(general=360, tp=280, pure=170)
+    n_born = 4 if quick else 70
     n_variant_rounds = 1 if quick else 8
+    n_late, n_weight, n_classical = (12, 6, 6) if quick else (160, 100, 100)
     n_expr = 150 if quick else 2500
     budget = 3e5 if quick else 3e6
     rng = random.Random(seed)
@@ -906,6 +1052,14 @@ def run(tier, seed, replay=None):
             sub = random.Random(rng.getrandbits(64))
             for c in variant_circuits(sub):
                 check_circuit(rep, drv, c, "variants", budget, sub)
+        sub = random.Random(rng.getrandbits(64))
+        for c in late_mix_circuits(sub, n_late):
+            check_circuit(rep, drv, c, "latemix", budget, sub)
+        weight_stream(rep, drv, random.Random(rng.getrandbits(64)), n_weight, budget)
+        sub = random.Random(rng.getrandbits(64))
+        for _ in range(n_classical):
+            c = gen_circuit(sub, "classical", sub.choice([1, 2, 2, 3]), sub.randint(1, 6))
+            check_circuit(rep, drv, c, "classical", budget, sub)
         born_stream(rep, random.Random(rng.getrandbits(64)), n_born)
         cqexpr_stream(rep, drv, random.Random(rng.getrandbits(64)), n_expr)
     finally:
